@@ -8,7 +8,8 @@ Ltac Zify.zify_post_hook ::= Z.to_euclidean_division_equations.
 
 (* the property at one input *)
 Definition R (c : col) (v : pyval) : Prop :=
-  exists x a, to_database c v = Some x /\ denote (cql_type c) x = Some a /\ prepared_value (cql_type c) v = Some a.
+  exists x a l, to_database c v = Some x /\ denote (cql_type c) x = Some a /\ prepared_value (cql_type c) v = Some a /\
+                encode_literal x = Some l /\ lit_value (cql_type c) l = Some a.
 
 (* ------------------------------------------------------------------ induction principle for columns *)
 Section ColInd.
@@ -99,46 +100,72 @@ Proof.
                   | _ => destruct ((m' =? 0) && (m <? 0)) eqn:?
                   end
               end;
-       do 2 eexists; (split; [reflexivity|]); cbn; unfold float_value32;
+       do 3 eexists; (split; [reflexivity|]); cbn; unfold float_value32;
        repeat match goal with Hr : round32 _ = _ |- _ => rewrite Hr end;
        repeat match goal with Hc : ?g = _ |- context [if ?g then _ else _] => rewrite Hc end;
        rw_guard; cbn [andb];
-       (split; [reflexivity | try reflexivity; f_equal; f_equal; unfold EPOCH_OFFSET_DAYS; repeat match goal with |- context [if ?b then _ else _] => destruct b eqn:? end; lia]).
+       (split; [reflexivity|]);
+       (split; [try reflexivity; f_equal; f_equal; unfold EPOCH_OFFSET_DAYS;
+                repeat match goal with |- context [if ?b then _ else _] => destruct b eqn:? end; lia|]);
+       (split; [reflexivity|]);
+       cbn; unfold float_value32, in_i8, in_i16, in_i32, in_i64;
+       repeat match goal with Hr : round32 _ = _ |- _ => rewrite Hr end;
+       repeat match goal with Hc : ?g = _ |- context [if ?g then _ else _] => rewrite Hc end;
+       rw_guard; cbn [andb];
+       try reflexivity.
+  (* Duration: one leading sign for components of one sign *)
+  all: f_equal; apply orb_prop in H;
+       destruct H as [H | H]; apply andb_prop in H; destruct H as [H H3]; apply andb_prop in H; destruct H as [H1 H2];
+       destruct (mo <? 0) eqn:?; destruct (d <? 0) eqn:?; destruct (ns <? 0) eqn:?; cbn [orb]; f_equal; lia.
 Qed.
 
 (* ------------------------------------------------------------------ containers *)
 Definition RP (c : col) : Prop := forall v, valid c v = true -> R c v.
 
+Lemma mapM_length : forall (A B : Type) (f : A -> option B) l ys, mapM f l = Some ys -> length ys = length l.
+Proof.
+  intros A B f l. induction l as [|x l IH]; intros ys H; cbn in H.
+  - injection H as <-. reflexivity.
+  - destruct (f x); [|discriminate]. destruct (mapM f l) eqn:E; [|discriminate]. injection H as <-. cbn. f_equal. apply IH. reflexivity.
+Qed.
+
 Lemma mapM_R : forall c l, RP c -> forallb (valid c) l = true ->
-  exists xs vs, mapM (to_database c) l = Some xs /\
-                mapM (cql_value false (cql_type c)) xs = Some vs /\
-                mapM (cql_value true (cql_type c)) l = Some vs.
+  exists xs vs ls, mapM (to_database c) l = Some xs /\
+                   mapM (cql_value false (cql_type c)) xs = Some vs /\
+                   mapM (cql_value true (cql_type c)) l = Some vs /\
+                   mapM encode_literal xs = Some ls /\ mapM (lit_value (cql_type c)) ls = Some vs.
 Proof.
   intros c l HP. induction l as [|x l IH]; intros H.
-  - exists [], []. repeat split; reflexivity.
+  - exists [], [], []. repeat split; reflexivity.
   - cbn [forallb] in H. apply andb_prop in H. destruct H as [Hx Hl].
-    destruct (IH Hl) as (xs & vs & E1 & E2 & E3).
-    destruct (HP x Hx) as (x' & a & F1 & F2 & F3). unfold denote, prepared_value in *.
-    exists (x' :: xs), (a :: vs). cbn [mapM]. rewrite E1, E2, E3, F1, F2, F3. repeat split; reflexivity.
+    destruct (IH Hl) as (xs & vs & ls & E1 & E2 & E3 & E4 & E5).
+    destruct (HP x Hx) as (x' & a & l' & F1 & F2 & F3 & F4 & F5). unfold denote, prepared_value in *.
+    exists (x' :: xs), (a :: vs), (l' :: ls). unfold mapM in *. rewrite E1, E2, E3, E4, E5, F1, F2, F3, F4, F5.
+    repeat split; reflexivity.
 Qed.
 
 Lemma mapM_pairs_R : forall k w l, RP k -> RP w ->
   forallb (fun kv => valid k (fst kv) && valid w (snd kv)) l = true ->
-  exists xs vs,
+  exists xs vs ls,
     mapM (fun kv => match to_database k (fst kv), to_database w (snd kv) with
                     | Some a, Some b => Some (a, b) | _, _ => None end) l = Some xs /\
     mapM (fun kv => match cql_value false (cql_type k) (fst kv), cql_value false (cql_type w) (snd kv) with
                     | Some a, Some b => Some (a, b) | _, _ => None end) xs = Some vs /\
     mapM (fun kv => match cql_value true (cql_type k) (fst kv), cql_value true (cql_type w) (snd kv) with
-                    | Some a, Some b => Some (a, b) | _, _ => None end) l = Some vs.
+                    | Some a, Some b => Some (a, b) | _, _ => None end) l = Some vs /\
+    mapM (fun kv => match encode_literal (fst kv), encode_literal (snd kv) with
+                    | Some a, Some b => Some (a, b) | _, _ => None end) xs = Some ls /\
+    mapM (fun kv => match lit_value (cql_type k) (fst kv), lit_value (cql_type w) (snd kv) with
+                    | Some a, Some b => Some (a, b) | _, _ => None end) ls = Some vs.
 Proof.
   intros k w l Hk Hw. induction l as [|[x y] l IH]; intros H.
-  - exists [], []. repeat split; reflexivity.
+  - exists [], [], []. repeat split; reflexivity.
   - cbn [forallb fst snd] in H. apply andb_prop in H. destruct H as [Hxy Hl]. apply andb_prop in Hxy. destruct Hxy as [Hx Hy].
-    destruct (IH Hl) as (xs & vs & E1 & E2 & E3).
-    destruct (Hk x Hx) as (x' & a & F1 & F2 & F3). destruct (Hw y Hy) as (y' & b & G1 & G2 & G3).
+    destruct (IH Hl) as (xs & vs & ls & E1 & E2 & E3 & E4 & E5).
+    destruct (Hk x Hx) as (x' & a & la & F1 & F2 & F3 & F4 & F5). destruct (Hw y Hy) as (y' & b & lb & G1 & G2 & G3 & G4 & G5).
     unfold denote, prepared_value in *.
-    exists ((x', y') :: xs), ((a, b) :: vs). cbn [mapM fst snd]. rewrite E1, E2, E3, F1, F2, F3, G1, G2, G3.
+    exists ((x', y') :: xs), ((a, b) :: vs), ((la, lb) :: ls). unfold mapM in *. cbn [fst snd].
+    rewrite E1, E2, E3, E4, E5, F1, F2, F3, F4, F5, G1, G2, G3, G4, G5.
     repeat split; reflexivity.
 Qed.
 
@@ -151,6 +178,12 @@ Proof. intros r t. destruct t; reflexivity. Qed.
 Lemma opt_field_some : forall f x, is_none x = false -> opt_field f x = f x.
 Proof. intros f x H. destruct x; try reflexivity. discriminate H. Qed.
 
+Lemma enc_null : forall x, encode_literal x = Some LNull -> x = PNone.
+Proof.
+  intros x H. destruct x; try reflexivity; cbn in H; try discriminate H;
+    match type of H with option_map _ ?m = _ => destruct m; discriminate H end.
+Qed.
+
 Lemma forall2b_len : forall (A B : Type) (p : A -> B -> bool) la lb, forall2b p la lb = true -> (length lb <= length la)%nat.
 Proof.
   intros A B p la. induction la as [|a la IH]; intros [|b lb] H; cbn in *; try lia; try discriminate.
@@ -161,34 +194,42 @@ Qed.
 Lemma field_R : forall c x (fdb : pyval -> option pyval),
   RP c ->
   (is_none x = true -> fdb x = Some PNone) -> (is_none x = false -> fdb x = to_database c x /\ valid c x = true) ->
-  exists x' a, fdb x = Some x' /\ opt_field (cql_value false (cql_type c)) x' = Some a /\
-               opt_field (cql_value true (cql_type c)) x = Some a.
+  exists x' a l, fdb x = Some x' /\ opt_field (cql_value false (cql_type c)) x' = Some a /\
+                 opt_field (cql_value true (cql_type c)) x = Some a /\
+                 encode_literal x' = Some l /\ opt_lit (lit_value (cql_type c)) l = Some a.
 Proof.
   intros c x fdb HP Hn Hs. destruct (is_none x) eqn:En.
-  - exists PNone, VNull. rewrite (Hn eq_refl). destruct x; try discriminate En. repeat split; reflexivity.
-  - destruct (Hs eq_refl) as [E V]. destruct (HP x V) as (x' & a & F1 & F2 & F3). unfold denote, prepared_value in *.
-    exists x', a. rewrite E, F1. split; [reflexivity|]. split.
+  - exists PNone, VNull, LNull. rewrite (Hn eq_refl). destruct x; try discriminate En. repeat split; reflexivity.
+  - destruct (Hs eq_refl) as [E V]. destruct (HP x V) as (x' & a & l & F1 & F2 & F3 & F4 & F5). unfold denote, prepared_value in *.
+    exists x', a, l. rewrite E, F1. split; [reflexivity|]. split; [|split; [|split; [exact F4|]]].
     + destruct x'; try exact F2. rewrite cql_value_none in F2. discriminate F2.
     + rewrite opt_field_some by exact En. exact F3.
+    + destruct l; try exact F5. apply enc_null in F4. subst x'. rewrite cql_value_none in F2. discriminate F2.
 Qed.
 
-Lemma zip_tuple_R : forall cs, Forall RP cs -> forall l,
+Lemma zip_fields_R : forall (fdb : col -> pyval -> option pyval) cs, Forall RP cs ->
+  (forall c x, is_none x = true -> fdb c x = Some PNone) ->
+  (forall c x, is_none x = false -> fdb c x = to_database c x) ->
+  forall l,
   forall2b (fun c' x => if is_none x then true else valid c' x) cs l = true ->
-  exists xs vs, zipM (map to_database cs) l = Some xs /\
+  exists xs vs ls, zipM (map fdb cs) l = Some xs /\
     zipM (map (fun t' => opt_field (cql_value false t')) (map cql_type cs)) xs = Some vs /\
     zipM (map (fun t' => opt_field (cql_value true t')) (map cql_type cs)) l = Some vs /\
-    length xs = length l.
+    mapM encode_literal xs = Some ls /\
+    zipM (map (fun t' => opt_lit (lit_value t')) (map cql_type cs)) ls = Some vs /\
+    length xs = length l /\ length ls = length l.
 Proof.
-  intros cs HF. induction HF as [|c cs Hc HF IH]; intros l H.
-  - destruct l; [|discriminate H]. exists [], []. repeat split; reflexivity.
+  intros fdb cs HF Hnone Hsome. induction HF as [|c cs Hc HF IH]; intros l H.
+  - destruct l; [|discriminate H]. exists [], [], []. repeat split; reflexivity.
   - destruct l as [|x l].
-    + exists [], []. repeat split; reflexivity.
+    + exists [], [], []. repeat split; reflexivity.
     + cbn [forall2b] in H. apply andb_prop in H. destruct H as [Hx Hl].
-      destruct (IH l Hl) as (xs & vs & E1 & E2 & E3 & E4).
-      destruct (field_R c x (to_database c) Hc) as (x' & a & F1 & F2 & F3).
-      * intros En. destruct x; try discriminate En. apply to_db_none.
-      * intros En. rewrite En in Hx. split; [reflexivity | exact Hx].
-      * exists (x' :: xs), (a :: vs). cbn [map zipM]. rewrite E1, E2, E3, F1, F2, F3. cbn [length]. rewrite E4.
+      destruct (IH l Hl) as (xs & vs & ls & E1 & E2 & E3 & E4 & E5 & E6 & E7).
+      destruct (field_R c x (fdb c) Hc) as (x' & a & l' & F1 & F2 & F3 & F4 & F5).
+      * apply Hnone.
+      * intros En. rewrite En in Hx. split; [apply Hsome; exact En | exact Hx].
+      * exists (x' :: xs), (a :: vs), (l' :: ls). cbn [map zipM]. unfold mapM in *.
+        rewrite E1, E2, E3, E4, E5, F1, F2, F3, F4, F5. cbn [length]. rewrite E6, E7.
         repeat split; reflexivity.
 Qed.
 
@@ -197,27 +238,6 @@ Definition udt_field (f : col) (x : pyval) : option pyval :=
   | PNone => if is_container f then to_database f x else Some PNone
   | _ => to_database f x
   end.
-
-Lemma zip_udt_R : forall fs, Forall RP fs -> forall l,
-  forall2b (fun c' x => if is_none x then true else valid c' x) fs l = true ->
-  exists xs vs, zipM (map udt_field fs) l = Some xs /\
-    zipM (map (fun t' => opt_field (cql_value false t')) (map cql_type fs)) xs = Some vs /\
-    zipM (map (fun t' => opt_field (cql_value true t')) (map cql_type fs)) l = Some vs /\
-    length xs = length l.
-Proof.
-  intros fs HF. induction HF as [|c cs Hc HF IH]; intros l H.
-  - destruct l; [|discriminate H]. exists [], []. repeat split; reflexivity.
-  - destruct l as [|x l].
-    + exists [], []. repeat split; reflexivity.
-    + cbn [forall2b] in H. apply andb_prop in H. destruct H as [Hx Hl].
-      destruct (IH l Hl) as (xs & vs & E1 & E2 & E3 & E4).
-      destruct (field_R c x (udt_field c) Hc) as (x' & a & F1 & F2 & F3).
-      * intros En. destruct x; try discriminate En. unfold udt_field.
-        destruct (is_container c) eqn:Ec; [|reflexivity]. apply to_db_none.
-      * intros En. rewrite En in Hx. split; [|exact Hx]. destruct x; try reflexivity. discriminate En.
-      * exists (x' :: xs), (a :: vs). cbn [map zipM]. rewrite E1, E2, E3, F1, F2, F3. cbn [length]. rewrite E4.
-        repeat split; reflexivity.
-Qed.
 
 Lemma leb_len : forall (a b : nat), (a <= b)%nat -> (a <=? b)%nat = true.
 Proof. intros a b H. apply Nat.leb_le. exact H. Qed.
@@ -230,37 +250,57 @@ Proof.
   - (* List *)
     cbn [valid] in Hv.
     assert (HL : forall l, forallb (valid c) l = true -> forall mk, (mk = PList \/ mk = PTuple) -> R (CList c) (mk l)).
-    { intros l Hl mk Hmk. destruct (mapM_R c l IHc Hl) as (xs & vs & E1 & E2 & E3).
-      exists (PList xs), (VList vs). unfold denote, prepared_value.
-      destruct Hmk as [-> | ->]; cbn [to_database cql_type cql_value]; rewrite E1, E3; cbn [option_map]; rewrite E2;
-        repeat split; reflexivity. }
+    { intros l Hl mk Hmk. destruct (mapM_R c l IHc Hl) as (xs & vs & ls & E1 & E2 & E3 & E4 & E5).
+      exists (PList xs), (VList vs), (LList ls). unfold denote, prepared_value.
+      destruct Hmk as [-> | ->]; cbn [to_database cql_type cql_value encode_literal lit_value]; rewrite E1, E3; cbn [option_map];
+        rewrite E2, E4; cbn [option_map]; rewrite E5; repeat split; reflexivity. }
     destruct v; try discriminate Hv; [apply (HL l Hv PList) | apply (HL l Hv PTuple)]; auto.
   - (* Set *)
     cbn [valid] in Hv. destruct v; try discriminate Hv.
-    destruct (mapM_R c l IHc Hv) as (xs & vs & E1 & E2 & E3).
-    exists (PSet xs), (VSet vs). unfold denote, prepared_value. cbn [to_database cql_type cql_value].
-    rewrite E1, E3. cbn [option_map]. rewrite E2. repeat split; reflexivity.
+    destruct (mapM_R c l IHc Hv) as (xs & vs & ls & E1 & E2 & E3 & E4 & E5).
+    exists (PSet xs), (VSet vs), (LSet ls). unfold denote, prepared_value. cbn [to_database cql_type cql_value encode_literal lit_value].
+    rewrite E1, E3. cbn [option_map]. rewrite E2, E4. cbn [option_map]. rewrite E5. repeat split; reflexivity.
   - (* Map *)
     cbn [valid] in Hv. destruct v; try discriminate Hv.
-    destruct (mapM_pairs_R c1 c2 l IHc1 IHc2 Hv) as (xs & vs & E1 & E2 & E3).
-    exists (PDict xs), (VMap vs). unfold denote, prepared_value. cbn [to_database cql_type cql_value].
-    rewrite E1, E3. cbn [option_map]. rewrite E2. repeat split; reflexivity.
+    destruct (mapM_pairs_R c1 c2 l IHc1 IHc2 Hv) as (xs & vs & ls & E1 & E2 & E3 & E4 & E5).
+    exists (PDict xs), (VMap vs), (LMap ls). unfold denote, prepared_value. cbn [to_database cql_type cql_value encode_literal lit_value].
+    rewrite E1, E3. cbn [option_map]. rewrite E2, E4. cbn [option_map]. rewrite E5. repeat split; reflexivity.
   - (* Tuple *)
     cbn [valid] in Hv.
     assert (HL : forall l, forall2b (fun c' x => if is_none x then true else valid c' x) cs l = true ->
                  forall mk, (mk = PList \/ mk = PTuple) -> R (CTuple cs) (mk l)).
-    { intros l Hl mk Hmk. destruct (zip_tuple_R cs H l Hl) as (xs & vs & E1 & E2 & E3 & E4).
+    { intros l Hl mk Hmk.
+      destruct (zip_fields_R to_database cs H (fun c x En => ltac:(destruct x; try discriminate En; apply to_db_none))
+                             (fun c x _ => eq_refl) l Hl) as (xs & vs & ls & E1 & E2 & E3 & E4 & E5 & E6 & E7).
       pose proof (forall2b_len _ _ _ _ _ Hl) as Hlen.
-      exists (PTuple xs), (VTuple vs). unfold denote, prepared_value.
-      destruct Hmk as [-> | ->]; cbn [to_database cql_type cql_value]; rewrite E1; cbn [option_map];
-        rewrite E4, map_length, (leb_len _ _ Hlen), E2, E3; repeat split; reflexivity. }
+      exists (PTuple xs), (VTuple vs), (LTuple ls). unfold denote, prepared_value.
+      destruct Hmk as [-> | ->]; cbn [to_database cql_type cql_value encode_literal lit_value]; rewrite E1; cbn [option_map];
+        rewrite E4; cbn [option_map];
+        rewrite E6, E7, map_length, (leb_len _ _ Hlen), E2, E3, E5; repeat split; reflexivity. }
     destruct v; try discriminate Hv; [apply (HL l Hv PList) | apply (HL l Hv PTuple)]; auto.
   - (* UDT *)
     cbn [valid] in Hv. destruct v; try discriminate Hv. apply andb_prop in Hv. destruct Hv as [Hlen Hv].
-    destruct (zip_udt_R fs H l Hv) as (xs & vs & E1 & E2 & E3 & E4).
-    exists (PUdt xs), (VUdt vs). unfold denote, prepared_value. cbn [to_database cql_type cql_value].
-    rewrite Hlen. fold udt_field. change (map (fun f x => match x with PNone => if is_container f then to_database f x else Some PNone | _ => to_database f x end) fs) with (map udt_field fs).
-    rewrite E1. cbn [option_map]. rewrite E4, map_length, Hlen, E2, E3. repeat split; reflexivity.
+    assert (Hn : forall c x, is_none x = true -> udt_field c x = Some PNone).
+    { intros c x En. destruct x; try discriminate En. unfold udt_field. destruct (is_container c); [apply to_db_none | reflexivity]. }
+    assert (Hsm : forall c x, is_none x = false -> udt_field c x = to_database c x).
+    { intros c x En. destruct x; try reflexivity. discriminate En. }
+    destruct (zip_fields_R udt_field fs H Hn Hsm l Hv) as (xs & vs & ls & E1 & E2 & E3 & E4 & E5 & E6 & E7).
+    exists (PUdt xs), (VUdt vs), (LUdt ls). unfold denote, prepared_value. cbn [to_database cql_type cql_value encode_literal lit_value].
+    rewrite Hlen.
+    change (map (fun f x => match x with PNone => if is_container f then to_database f x else Some PNone | _ => to_database f x end) fs) with (map udt_field fs).
+    rewrite E1. cbn [option_map]. rewrite E4. cbn [option_map]. rewrite E6, E7, map_length, Hlen, E2, E3, E5. repeat split; reflexivity.
+Qed.
+
+(* sending the same object again: the argument is not written, so every send of a history denotes the same value *)
+Lemma resend_all : forall c v n x, valid c v = true -> In x (send_history c v n) ->
+  exists y a l, x = Some y /\ denote (cql_type c) y = Some a /\ prepared_value (cql_type c) v = Some a /\
+                encode_literal y = Some l /\ lit_value (cql_type c) l = Some a.
+Proof.
+  intros c v n x Hv. induction n as [|n IH]; intros Hin; cbn [send_history] in Hin.
+  - contradiction.
+  - destruct Hin as [<- | Hin].
+    + destruct (same_value_all c v Hv) as (y & a & l & E & Rest). exists y, a, l. split; [exact E | exact Rest].
+    + unfold arg_after in Hin. apply IH. exact Hin.
 Qed.
 
 (* ------------------------------------------------------------------ DateTime: exact millisecond *)
